@@ -352,7 +352,9 @@ class CloneForCallee(Contract):
                "DataWrapperDeduplicator", "InlineMarker",
                "Inliner", "DeadCodeEliminator", "TopoSortMapper",
                "NodeCountMapper", "MaterializedNodeCollector",
-               "EinsumWithNoBroadcastsRewriter"]
+               "EinsumWithNoBroadcastsRewriter",
+               # users of the *base* CachedMapper.clone_for_callee
+               "InputGatherer", "SizeParamGatherer"]
 
     def instances(self, tier):
         return [dict(label=m, M=m) for m in self.MAPPERS]
@@ -386,3 +388,53 @@ class CloneForCallee(Contract):
                                 and not c._visited_arrays_or_names))
             h.oblige(f"clone.shared-visited-functions[{Mn}]",
                      z3.BoolVal(c._visited_functions is m._visited_functions))
+        if hasattr(m, "materialized_nodes"):
+            # what is collected inside a function body belongs to the one
+            # result the caller reads
+            h.oblige(f"clone.shares-the-collected-result[{Mn}]",
+                     z3.BoolVal(c.materialized_nodes is m.materialized_nodes))
+
+
+@contract
+class CacheKeyWithExtraArgs(Contract):
+    name = "cache.get_cache_key"
+    functions = ("pytato.transform:CachedMapper.get_cache_key",
+                 "pytato.transform:CachedMapper."
+                 "get_function_definition_cache_key")
+    properties = ("C13",)
+
+    def instances(self, tier):
+        return [dict(label=k, how=k) for k in
+                ("no-extra", "positional-extra", "keyword-extra", "both")]
+
+    def run(self, h, inst):
+        from pytato.transform import CachedMapper
+        m = CachedMapper()
+        x = gm.mk_opaque_array("x", "concrete", rank=1)
+        how = inst["how"]
+        args = (7,) if how in ("positional-extra", "both") else ()
+        kwargs = dict(k=8) if how in ("keyword-extra", "both") else {}
+        for fn, arg in ((m.get_cache_key, x),
+                        (m.get_function_definition_cache_key,
+                         gm.mk_opaque_function("f", "concrete"))):
+            nm = fn.__name__
+            try:
+                key = h.call(fn, arg, *args, **kwargs)
+            except EngineSignal:
+                raise
+            except NotImplementedError:
+                # the base class cannot know how extra arguments enter the
+                # key: it must refuse, not ignore them
+                h.oblige(f"cachekey.refuses-only-with-extra-args[{nm}]",
+                         z3.BoolVal(how != "no-extra"))
+                continue
+            if how == "no-extra":
+                h.oblige(f"cachekey.is-the-node[{nm}]",
+                         z3.BoolVal(key is arg))
+            else:
+                # a key was produced although extra arguments were given: it
+                # has to depend on them
+                key2 = h.call(fn, arg, *[a + 1 for a in args],
+                              **{k: v + 1 for k, v in kwargs.items()})
+                h.oblige(f"cachekey.extra-args-are-part-of-the-key[{nm}]",
+                         z3.BoolVal(key != key2))
